@@ -226,6 +226,19 @@ def run(ctx):
             continue
         ctx.check(pm['all_elements'], 'R16.1', m + '/every-solution', pm['where'], b.path,
                   'the post-map does not visit every returned solution (adaptors: %s)' % pm.get('adaptors'))
+        # nothing else touches the solutions: a second pass over them (a helper that "normalises" the coupled joint, a sort,
+        # a removal) is outside what the forward side undoes
+        vbi, vt, _ = util.virtual_calls(b)[0]
+        sol = vt['dest']['local']
+        extra = []
+        for ci, ct in b.calls():
+            n = cname(callee_name(ct))
+            if ci == vbi or n.split('::')[-1] in ('deref_mut', 'deref', 'index_mut', 'index', 'len', 'iter_mut', 'iter', 'into_iter', 'is_empty', 'for_each', 'next', 'enumerate'):
+                continue
+            if any(a.get('k') in ('copy', 'move') and util._ref_root(b, a) == sol for a in ct['args']):
+                extra.append('%s at %s' % (n, b.where(ci)))
+        ctx.check(not extra, 'R16.1', m + '/only-postmap', b.where(vbi), b.path,
+                  'the solutions are handed to %s besides the post-map: what it does to them is not undone by the forward side' % ', '.join(extra), found=', '.join(extra))
         # pose pass-through
         t = [x for x in util.virtual_calls(b)][0]
         ctx.check(util.is_param(b.op_term(t[1]['args'][1], (t[0], None)), 2), 'R16.2', m + '/pose', b.where(t[0]), b.path,
